@@ -10,5 +10,7 @@ cd /verif
 VERIF_REPO=$wt PYTHONPATH=$wt/src VERIF_EVIDENCE_DIR=/tmp/seed_ev VERIF_REPLAY_DIR=/tmp/seed_replays ./check "$prop" --tier "$tier" 2>&1 | grep -v "^KNOWN-FINDING" | tail -3 | cut -c1-400
 rc=${PIPESTATUS[0]}
 git -C /repo worktree remove --force "$wt"
+# generated model parts were re-translated from the mutated worktree: restore the committed copies
+git -C /verif checkout -- lean/CogentModel/Gen
 echo "seedtest prop=$prop patch=$patch rc=$rc"
 exit $rc
